@@ -13,7 +13,7 @@ from psmc.dsl import fixed, var, zero, worker, select, cumul, req, con, prog, R,
 from . import common, C11
 
 RULE = ("(a) every reported solution of every admitted leaf of the C11 corpus extended with indicators and buffers (unscheduled optional "
-        "tasks, zero-duration tasks, calendar times): to_json / to_json_file / to_df / to_csv (string and file, separators , and ;) / "
+        "tasks, zero-duration tasks, calendar times): to_json / to_json_file / to_df / to_csv (string and file, separators , ; tab space |) / "
         "to_excel_file (colors on and off) are re-read with independent parsers (json, csv, zipfile + XML) and compared field by field "
         "with the solution object; (b) export_to_smt2 under both optimisers on a cross-family program list: the file is parsed with "
         "z3.parse_smt2_file and the WHOLE E1 box is explored on the parsed assertion set - it must admit exactly the leaves the live "
@@ -140,7 +140,7 @@ def export_check(program, built, solver, prims, leaves, job):
                              for _i, row in df2.iterrows()]
                 if got_rows2 != want_rows:
                     bad("df:second-call-differs", leaf, got=got_rows2, want=want_rows)
-                for sep in (",", ";"):
+                for sep in (",", ";", "\t", " ", "|"):
                     texts = [sol.to_csv(separator=sep)]
                     p = os.path.join(tmp, "s.csv")
                     sol.to_csv(csv_filename=p, separator=sep)
